@@ -192,6 +192,7 @@ def check_guard(ctx, rule, f, sink_nodes, forms, required, names, what, engine="
     ref_tests = {t.id for t, _ in refusals(fa)}
     tests = {}
     opaque_refusals = set()
+    helpers = {}
     # a statement that only calls a helper of the repository which can raise (its value is discarded) is a refusal
     # written as a function: the rule cannot look inside, so a sink behind it is undecided, not violated
     for n in cfg.stmts():
@@ -202,8 +203,16 @@ def check_guard(ctx, rule, f, sink_nodes, forms, required, names, what, engine="
                 targets = R.resolve_call(fa.term(n.ast.value, n), fa) or []
             except Exception:
                 targets = []
-            if any(any(isinstance(x, (ast.Raise, ast.Assert)) for x in ast.walk(g.node)) for g in targets):
+            raising = [g for g in targets if any(isinstance(x, (ast.Raise, ast.Assert)) for x in ast.walk(g.node))]
+            if not raising:
+                continue
+            # one resolved checker: read its tests with the call's arguments substituted for its parameters, so that
+            # the caller's path continues behind the call only under assignments that let the checker return normally
+            hp = _helper_pass(ctx, fa, n, raising, forms) if len(targets) == 1 else None
+            if hp is None:
                 opaque_refusals.add(n.id)
+            else:
+                helpers[n.id] = hp
     for n in cfg.nodes:
         if n.kind == "test" and cfg.is_reachable(n):
             fm = forms.of(fa.term(n.ast, n))
@@ -211,7 +220,8 @@ def check_guard(ctx, rule, f, sink_nodes, forms, required, names, what, engine="
             if n.id in ref_tests and any(a.startswith("?") for a in atoms_of(fm)):
                 opaque_refusals.add(n.id)
     named = sorted(set(names) | {a for fm in tests.values() for a in atoms_of(fm) if not a.startswith("?")} |
-                   {a for c in constraints for a in atoms_of(c)})
+                   {a for c in constraints for a in atoms_of(c)} |
+                   {a for hp in helpers.values() for fm in hp[2].values() for a in atoms_of(fm) if not a.startswith("?")})
     if len(named) > 14:
         for s in sink_nodes:
             ctx.unknown(rule, f, what, "too many atoms", node=s.ast, engine=engine)
@@ -227,7 +237,7 @@ def check_guard(ctx, rule, f, sink_nodes, forms, required, names, what, engine="
                 continue
             if required(A):
                 continue
-            r1 = _feasible_reach(cfg, src, s, tests, A, avoid=())
+            r1 = _feasible_reach(cfg, src, s, tests, A, avoid=(), helpers=helpers, strict=False)
             if not r1:
                 continue
             # guards inside the statement (a and b, a or b, x if c else y, comprehension filters)
@@ -237,7 +247,7 @@ def check_guard(ctx, rule, f, sink_nodes, forms, required, names, what, engine="
             if loc is None:
                 verdict, wit = None, dict(A)
                 continue
-            r2 = _feasible_reach(cfg, src, s, tests, A, avoid=opaque_refusals)
+            r2 = _feasible_reach(cfg, src, s, tests, A, avoid=opaque_refusals, helpers=helpers, strict=True)
             if r2:
                 verdict, wit = False, dict(A)
                 break
@@ -317,7 +327,40 @@ class _Partial(dict):
         return None
 
 
-def _feasible_reach(cfg, src, sink, tests, A, avoid):
+def _helper_pass(ctx, fa, n, targets, forms):
+    """(callee cfg, callee exit, {test id: formula}, opaque refusal ids) for the checker called at statement n, with the
+    callee's parameters replaced by the argument terms of the call; None when the call cannot be bound"""
+    from .terms import subst
+    g = targets[0]
+    call = fa.term(n.ast.value, n)
+    if call.k != "call":
+        return None
+    ga = ctx.fa(g)
+    params = list(g.params)
+    mapping = {}
+    args = list(call.a[1])
+    if g.cls is not None and not g.is_staticmethod and params and call.a[0].k == "attr":
+        mapping[params[0]] = call.a[0].a[0]
+        params = params[1:]
+    if any(a.k == "star" for a in args):
+        return None
+    for p_, a in zip(params, args):
+        mapping[p_] = a
+    for k_, v in call.a[2]:
+        if k_ in g.params:
+            mapping[k_] = v
+    gtests, gopaque = {}, set()
+    gref = {t.id for t, _ in refusals(ga)}
+    for m in ga.cfg.nodes:
+        if m.kind == "test" and ga.cfg.is_reachable(m):
+            fm = forms.of(subst(ga.term(m.ast, m), mapping))
+            gtests[m.id] = fm
+            if m.id in gref and any(a.startswith("?") for a in atoms_of(fm)):
+                gopaque.add(m.id)
+    return (ga.cfg, ga.cfg.exit, gtests, gopaque)
+
+
+def _feasible_reach(cfg, src, sink, tests, A, avoid, helpers=None, strict=False):
     seen = set()
     stack = [src]
     while stack:
@@ -329,6 +372,11 @@ def _feasible_reach(cfg, src, sink, tests, A, avoid):
             return True
         if n.id in avoid and n is not src:
             continue
+        if helpers and n.id in helpers and n is not src:
+            gcfg, gexit, gtests, gopaque = helpers[n.id]
+            # can the checker return normally under A?  (strict: not through a refusal it cannot interpret)
+            if not _feasible_reach(gcfg, gcfg.entry, gexit, gtests, A, avoid=gopaque if strict else ()):
+                continue
         if n.kind == "test" and n.id in tests:
             v = ev(tests[n.id], A)
             for e in n.succ:
